@@ -66,7 +66,7 @@ def generate(seed, tier="quick"):
     for op in init_value_ops(o, dw.ref):
         dw.dry_apply(op)
         ops.append(op)
-    sw = {"set": 2, "insert": 3, "connect": 3, "record": 4, "group": 1, "init_states": 1}
+    sw = {"set": 2, "insert": 3, "connect": 3, "record": 4, "group": 1, "init_states": 1, "make_trainable": 2}
     for _ in range(o.randint(3, 12)):
         op = gen_op(o, dw, sw, cfg)
         if op is not None and dw.dry_apply(op) == "accept":
@@ -98,7 +98,7 @@ def generate(seed, tier="quick"):
     return {"prop": PROPERTY, "shape": shape, "ops": ops, "N": N, "dt": o.choice(DTS), "feed": mode, "stims": stims, "clamp": clamp,
             "solver": o.choice(["bwd_euler", "bwd_euler", "crank_nicolson"]),
             "vsolver": o.choice(["jaxley.stone", "jaxley.thomas", "jax.sparse"]),
-            "ref_ckpt": _ckpt(o, N), "manual": o.random() < 0.5, "splits": splits}
+            "ref_ckpt": _ckpt(o, N), "manual": o.random() < 0.5, "splits": splits, "pseed": o.randrange(1 << 30), "use_params": o.random() < 0.8}
 
 
 # --------------------------------------------------------------------------------------------- execution helpers
@@ -198,6 +198,20 @@ def execute(program):
     feed = Feed(w, program)
     base_kw = dict(dt=dt, solver=program["solver"], vsolver=program["vsolver"])
     nidx = len(program["ops"])
+
+    # trainables (parameters *and* initial states) get values that differ from the tables and are passed to every call;
+    # a continuation must start from the handed-over states, not from the trainable initial states
+    params = None
+    if ref.trainables and program.get("use_params", True):
+        params = []
+        for t in ref.trainables:
+            default, is_state = w.key_default(t["key"])
+            lo, hi = mech.value_range(t["key"], default, is_state)
+            params.append({t["key"]: jnp.asarray([uval(program.get("pseed", 1), t["key"] + "p", g, lo, hi) for g in range(len(t["groups"]))])})
+        w.bump("probe_trainables_passed")
+        if any(t["key"] == "v" or w.key_default(t["key"])[1] for t in ref.trainables):
+            w.bump("probe_trainable_initial_state")
+    base_kw["params"] = params
 
     def run(m, a, b, ckpt=None, jit=False, states=None):
         kw = dict(base_kw, ckpt=ckpt, mode="jit" if jit else "eager", all_states=states, return_states=True)
@@ -426,7 +440,7 @@ def manual_steps(w, feed, base_kw, N, dt):
     with quiet():
         m.to_jax()
         init_fn, step_fn = build_init_and_step_fn(m, voltage_solver=base_kw["vsolver"], solver=base_kw["solver"])
-        states, params = init_fn(m.get_parameters(), None, None, dt)
+        states, params = init_fn(base_kw.get("params") or [], None, None, dt)
         step = jax.jit(step_fn, static_argnames=())
         obs = lambda s: [state_entry(ref, s, idx, st) if st in s else float("nan") for idx, st in ref.recordings]  # noqa: E731
         out = [obs(states)]
@@ -438,7 +452,7 @@ def manual_steps(w, feed, base_kw, N, dt):
 
 
 def simplify(program):
-    for field, simple in (("solver", "bwd_euler"), ("dt", 0.025), ("manual", False), ("ref_ckpt", None), ("clamp", None), ("vsolver", "jax.sparse")):
+    for field, simple in (("solver", "bwd_euler"), ("dt", 0.025), ("manual", False), ("ref_ckpt", None), ("clamp", None), ("vsolver", "jax.sparse"), ("use_params", False)):
         if program.get(field) != simple:
             q = copy.deepcopy(program)
             q[field] = simple
